@@ -78,6 +78,11 @@ class Ctx:
         self.t0 = time.time()
         base = os.environ.get("VERIF_SCRATCH_BASE") or tempfile.gettempdir()
         self.scratch = tempfile.mkdtemp(prefix="obiverif-%s-" % pid, dir=base)
+        # every child (TLC, Apalache's launcher, the drivers, the commands under test) puts its temporary files
+        # in the scratch directory of the run, removed with it
+        self.tmpdir = os.path.join(self.scratch, "tmp")
+        os.makedirs(self.tmpdir)
+        os.environ["TMPDIR"] = self.tmpdir
         self.rng = random.Random(self.seed)
         self.states = 0
         self.transitions = 0
@@ -263,7 +268,7 @@ class Ctx:
         driver): it is reported as a violation (the run itself stays incomplete).  Any other death of the
         driver is inconclusive."""
         m = re.search(r"^(panic: .*|fatal error: .*)$", stderr, re.M)
-        g = re.search(r"^goroutine \d+ \[running\]:\n(?:panic\(.*\n\t.*\n|runtime\..*\n\t.*\n)*(\S+)\(", stderr, re.M)
+        g = re.search(r"^goroutine \d+ \[running\]:\n(?:panic\(.*\n\t.*\n|runtime\..*\n\t.*\n|github\.com/sirupsen/logrus\..*\n\t.*\n)*(\S+)\(", stderr, re.M)
         if not m or not g:
             return
         top = g.group(1)
